@@ -187,34 +187,34 @@ def r1b(c, reg):
         (PATCHING, "_find_acl_matches", "rules"): "exempt scratch field rule['attrs']['match'] of the compiled ACL (the property exempts it)",
         (COMMON, "_ignore_case", "diff_pre"): "diff_pre is the per-call structure built by apply_diff_rb",
     }
-    roots = {}
-    for m, q, fn in cl:
-        mut = eff.mutated_params(m, q, fn)
-        for p, sites in mut.items():
-            for s in sites:
-                rk = (s.root[0], s.root[1], s.root[2])
-                roots.setdefault(rk, s)
     n = 0
-    # (a) primitive writes located outside the vendor rulebook package: judged against the allow-list
-    for (mn, q, p), s in sorted(roots.items(), key=lambda kv: kv[0]):
-        if mn.startswith("annet.rulebook."):
-            continue
-        rm = repo.module(mn)
-        n += 1
-        at = f"{rm.rel}:{getattr(s.root[3], 'lineno', 0)}"
-        construct = f"{mn.split('.')[-1]}:{q}({p})"
-        fdef = rm.defs.get(q)
-        if p in ("self", "cls"):
-            c.holds("C20.R1b", at, construct, "object writing to itself", trivial=True)
-        elif (mn, q, p) in allowed:
-            c.holds("C20.R1b", at, construct, f"allowed: {allowed[(mn, q, p)]}")
-        elif fdef is not None and id(fdef) in logic_fns and p in [a.arg for a in fdef.args.args[:1] + fdef.args.args[2:3]]:
-            c.holds("C20.R1b", at, construct, "registered logic function writes to its private rule copy / the bucket dict of its key")
-        elif fdef is not None and id(fdef) in dlogic_fns and p in ("old", "new", "diff_pre"):
-            c.holds("C20.R1b", at, construct, "registered diff logic works on make_diff's deep copies / the per-call diff_pre")
-        else:
-            c.violated("C20.R1b", at, construct, f"`{q}` writes into its parameter `{p}` ({s.how[:120]}): a caller's tree, a compiled rulebook/ACL or another shared object is modified, so later "
-                       "computations in the same process see different inputs", key_text=f"write:{q}:{p}")
+    # (a) entry points: which of their parameters end up written, and by which primitive write
+    reg_ids = set(logic_fns) | set(dlogic_fns)
+    for (mn, q) in ENTRIES:
+        m = repo.module(mn)
+        fn = repo.func(mn, q)
+        mut = eff.mutated_params(m, q, fn)
+        for p, sites in sorted(mut.items()):
+            if p in ("self", "cls"):
+                continue
+            seen_roots = set()
+            for s_ in sites:
+                rk = (s_.root[0], s_.root[1], s_.root[2])
+                if rk in seen_roots:
+                    continue
+                seen_roots.add(rk)
+                n += 1
+                rmod, rq, rp = rk
+                at = f"{repo.module(rmod).rel}:{getattr(s_.root[3], 'lineno', 0)}"
+                construct = f"{q}({p}) <- {rmod.split('.')[-1]}:{rq}({rp})"
+                rdef = repo.module(rmod).defs.get(rq)
+                if (rmod, rq, rp) in allowed and rq == "_find_acl_matches":
+                    c.holds("C20.R1b", at, construct, f"allowed: {allowed[(rmod, rq, rp)]}")
+                elif p == "pre" and (rmod.startswith("annet.rulebook.") or (rdef is not None and id(rdef) in reg_ids)):
+                    c.holds("C20.R1b", at, construct, "registered logic writes into the bucket dict of the pre it was handed (ownership: C16.R3)")
+                else:
+                    c.violated("C20.R1b", at, construct, f"`{q}` lets a write reach its parameter `{p}` ({s_.how[:140]}): the caller's tree, a compiled rulebook/ACL or another shared "
+                               "object is modified, so later computations in the same process see different inputs", key_text=f"write:{q}:{p}:{rq}")
     # (b) vendor logic code is judged at its boundary: which parameters of each registered function end up written (directly or through helpers)
     for kind, okparams in (("logic", (0, 2)), ("diff_logic", None)):
         for name, m, fn in reg[kind]:
